@@ -1,6 +1,7 @@
 package main
 
 import (
+	"runtime/debug"
 	"bufio"
 	_ "embed"
 	"encoding/json"
@@ -49,6 +50,10 @@ type knownFinding struct {
 }
 
 func main() {
+	// runaway recursion in code without yield points (library code called from Havoc) ends in the
+	// Go runtime's "fatal error: stack overflow"; 256 MB instead of 1 GB makes that a matter of
+	// a second (no legitimate call chain of the teamserver comes anywhere near)
+	debug.SetMaxStack(256 << 20)
 	mode := flag.String("mode", "smoke", "smoke|worker|replay|check|determinism")
 	prop := flag.String("prop", "", "property id")
 	seed := flag.Uint64("seed", 1, "VERIF_SEED")
@@ -171,6 +176,8 @@ func worker(prop string, seed uint64, tier string, from, stride, maxRuns int, de
 		t0 := time.Now()
 		plan := pr.Gen(seed, run, tier)
 		dir := props.RunDir(base, run)
+		// the supervisor must know which run a worker died in (fatal runtime errors cannot be recovered)
+		os.WriteFile(filepath.Join(base, fmt.Sprintf("current-%d", from)), []byte(fmt.Sprintf("%d run", run)), 0644)
 		res := props.SafeExec(pr, plan, dir)
 		if os.Getenv("VERIF_DEBUG_FD") != "" {
 			fds, _ := os.ReadDir("/proc/self/fd")
@@ -194,6 +201,7 @@ func worker(prop string, seed uint64, tier string, from, stride, maxRuns int, de
 			} else {
 				f.Close()
 			}
+			os.WriteFile(filepath.Join(base, fmt.Sprintf("current-%d", from)), []byte(fmt.Sprintf("%d shrink", run)), 0644)
 			min, mres := shrink(pr, plan, res, sig, base)
 			rf := replayFile{Property: prop, Signature: sig, Detail: v.Detail, Digest: mres.Digest, Plan: min,
 				Note: "replay with: ./check --replay <this file>"}
@@ -378,6 +386,30 @@ func replay(file, base string, trace bool) int {
 		fmt.Fprintln(os.Stderr, "unknown property", rf.Property)
 		return 2
 	}
+	if strings.Contains(rf.Signature, "/fatal/") && os.Getenv("VERIF_REPLAY_INNER") == "" {
+		// the violation is the death of the process: run the plan in a child and look at how it ends
+		self, _ := os.Executable()
+		cmd := exec.Command(self, "-mode", "replay", "-file", file, "-base", base)
+		cmd.Env = append(os.Environ(), "VERIF_REPLAY_INNER=1", "GOMAXPROCS=2", "TZ=UTC")
+		eb := &tailBuffer{max: 1 << 20}
+		cmd.Stderr = eb
+		cmd.Stdout = eb
+		err := cmd.Run()
+		class, frame := fatalOf(eb.String())
+		sig := fmt.Sprintf("%s/fatal/%s:%s", rf.Property, class, frame)
+		ok := err != nil && class != "" && sig == rf.Signature
+		fmt.Printf("REPLAY property=%s signature=%q reproduced=%v digest=0 expected_digest=0\n", rf.Property, rf.Signature, ok)
+		if class != "" {
+			fmt.Printf("  the child process died: fatal error: %s (innermost Havoc frame: %s)\n", class, frame)
+		} else {
+			fmt.Printf("  the child process ended with: %v\n", err)
+		}
+		os.RemoveAll(props.RunDir(base, 0))
+		if ok {
+			return 1
+		}
+		return 0
+	}
 	dir := props.RunDir(base, 0)
 	defer os.RemoveAll(dir)
 	res := props.SafeExec(pr, rf.Plan, dir)
@@ -497,11 +529,14 @@ func check(prop string, seed uint64, tier string, maxRuns, workers int, base, ve
 		wg.Add(1)
 		go func(i int) {
 			defer wg.Done()
+			from := i
+		respawn:
 			cmd := exec.Command(self, "-mode", "worker", "-prop", prop, "-seed", fmt.Sprint(seed), "-tier", tier,
-				"-from", fmt.Sprint(i), "-stride", fmt.Sprint(workers), "-runs", fmt.Sprint(tc.runs),
+				"-from", fmt.Sprint(from), "-stride", fmt.Sprint(workers), "-runs", fmt.Sprint(tc.runs),
 				"-deadline", fmt.Sprint(deadline), "-base", scratch, "-verif", verif)
 			cmd.Env = append(os.Environ(), "GOMAXPROCS=2", "TZ=UTC")
-			cmd.Stderr = os.Stderr
+			errbuf := &tailBuffer{max: 1 << 20}
+			cmd.Stderr = errbuf
 			so, err := cmd.StdoutPipe()
 			if err != nil {
 				mu.Lock()
@@ -555,12 +590,40 @@ func check(prop string, seed uint64, tier string, maxRuns, workers int, base, ve
 				mu.Unlock()
 			}
 			close(done)
-			if err := cmd.Wait(); err != nil {
-				mu.Lock()
-				if trouble == "" {
-					trouble = fmt.Sprintf("worker %d: %v", i, err)
+			err = cmd.Wait()
+			if err == nil {
+				os.Stderr.Write(errbuf.headBytes())
+			}
+			if err != nil {
+				// a fatal runtime error (stack overflow, ...) in the code under test ends the real
+				// teamserver too: that run is a violation; the rest of this worker's share goes on
+				class, frame := fatalOf(errbuf.String())
+				cur, phase := currentRun(scratch, from)
+				if class != "" && cur >= 0 && phase == "run" {
+					sig := fmt.Sprintf("%s/fatal/%s:%s", prop, class, frame)
+					pl := props.Registry[prop].Gen(seed, cur, tier)
+					rf := replayFile{Property: prop, Signature: sig, Detail: fmt.Sprintf("the process died with \"fatal error: %s\" (innermost Havoc frame: %s)", class, frame), Plan: pl,
+						Note: "replay with: ./check --replay <this file> (the replay runs in a child process and reports how it died)"}
+					os.MkdirAll(replayDir(verif), 0755)
+					name := filepath.Join(replayDir(verif), fmt.Sprintf("%s-%d-%d-%08x.json", prop, seed, cur, fnv32(sig)))
+					b, _ := json.MarshalIndent(rf, "", " ")
+					os.WriteFile(name, b, 0644)
+					res := &props.Result{NonTrivial: true, Violations: []props.Violation{{Property: prop, Rule: "fatal", Disc: class + ":" + frame, Detail: rf.Detail}}}
+					mu.Lock()
+					lines = append(lines, runLine{Run: cur, Res: res, Replays: map[string]string{sig: name}})
+					mu.Unlock()
+					from = cur + workers
+					if from < tc.runs && time.Now().Unix() < deadline {
+						goto respawn
+					}
+				} else {
+					os.Stderr.Write(errbuf.headBytes())
+					mu.Lock()
+					if trouble == "" {
+						trouble = fmt.Sprintf("worker %d: %v (run %d, %s)", i, err, cur, phase)
+					}
+					mu.Unlock()
 				}
-				mu.Unlock()
 			}
 		}(i)
 	}
@@ -767,4 +830,95 @@ func replayDir(verif string) string {
 		return d
 	}
 	return filepath.Join(verif, "replays")
+}
+
+// tailBuffer keeps the first and the last part of a stream (a stack overflow trace is gigantic: the
+// fatal line is at its head, the Havoc frames that entered the recursion are at its tail).
+type tailBuffer struct {
+	mu   sync.Mutex
+	max  int
+	head []byte
+	tail []byte
+}
+
+func (t *tailBuffer) Write(p []byte) (int, error) {
+	t.mu.Lock()
+	defer t.mu.Unlock()
+	n := len(p)
+	if room := t.max - len(t.head); room > 0 {
+		k := room
+		if k > len(p) {
+			k = len(p)
+		}
+		t.head = append(t.head, p[:k]...)
+		p = p[k:]
+	}
+	t.tail = append(t.tail, p...)
+	if len(t.tail) > t.max {
+		t.tail = t.tail[len(t.tail)-t.max:]
+	}
+	return n, nil
+}
+
+func (t *tailBuffer) String() string {
+	t.mu.Lock()
+	defer t.mu.Unlock()
+	return string(t.head) + "\n" + string(t.tail)
+}
+
+func (t *tailBuffer) headBytes() []byte {
+	t.mu.Lock()
+	defer t.mu.Unlock()
+	if len(t.head) > 64<<10 {
+		return t.head[:64<<10]
+	}
+	return t.head
+}
+
+// fatalOf extracts the class of a Go fatal runtime error and the Havoc function deepest in the
+// call chain of the goroutine that died.
+func fatalOf(out string) (class, frame string) {
+	i := strings.Index(out, "fatal error: ")
+	if i < 0 {
+		return "", ""
+	}
+	line := out[i+len("fatal error: "):]
+	if j := strings.IndexByte(line, '\n'); j >= 0 {
+		line = line[:j]
+	}
+	class = strings.ReplaceAll(strings.TrimSpace(line), " ", "-")
+	frame = "unknown"
+	// the first goroutine trace after the fatal line belongs to the goroutine that died
+	rest := out[i:]
+	if g := strings.Index(rest, "\ngoroutine "); g >= 0 {
+		rest = rest[g+1:]
+		if e := strings.Index(rest, "\n\ngoroutine "); e >= 0 {
+			rest = rest[:e]
+		}
+	}
+	for _, l := range strings.Split(rest, "\n") {
+		if strings.HasPrefix(l, "Havoc/") && !strings.HasPrefix(l, "Havoc/verifsim/") {
+			fn := l
+			if j := strings.LastIndex(fn, "("); j > 0 {
+				fn = fn[:j]
+			}
+			frame = strings.TrimPrefix(fn, "Havoc/")
+			break
+		}
+	}
+	return class, frame
+}
+
+// currentRun reads the side file a worker writes before each run.
+func currentRun(base string, from int) (int, string) {
+	b, err := os.ReadFile(filepath.Join(base, fmt.Sprintf("current-%d", from)))
+	if err != nil {
+		return -1, ""
+	}
+	var run int
+	var phase string
+	if _, err := fmt.Sscanf(string(b), "%d %s", &run, &phase); err != nil {
+		return -1, ""
+	}
+	return run, phase
 }
